@@ -36,6 +36,10 @@ OwnerMenu == {<<Leaf("a1")>>, <<Spr("FA", "none")>>, <<Spr("FA2", "none"), Leaf(
 NestedMenu(T) ==
   IF ~Nested THEN {} ELSE
   (IF Overlaps("A", T) THEN {IF T = "A" THEN Fld("friend", "-", "none", s) ELSE Inl("A", "none", <<Fld("friend", "-", "none", s)>>) : s \in SubMenu("J")} ELSE {})
+  \* an abstract-typed sub-field INSIDE a conditional fragment (inline with / without type condition): the generator copies
+  \* the fields of such a fragment to mark them optional and has to add __typename to the sub-selection it SENDS
+  \cup (IF Overlaps("A", T) THEN {Inl("A", "include", <<Fld("friend", "-", "none", <<Leaf("id")>>)>>)} ELSE {})
+  \cup (IF T = "A" THEN {Inl("-", "skip", <<Fld("friend", "-", "none", <<Leaf("name")>>)>>)} ELSE {})
   \cup (IF Overlaps("D", T) THEN {IF T = "D" THEN Fld("owner", "-", c, s) ELSE Inl("D", "none", <<Fld("owner", "-", c, s)>>) : s \in OwnerMenu, c \in {"none", "include"}} ELSE {})
 Menu(T) == LeafMenu(T) \cup InlineMenu(T) \cup SpreadMenu(T) \cup NestedMenu(T)
 
@@ -47,7 +51,13 @@ Mergeable(T, sels) ==
 \* canonical sequences: subsets of the menu in a fixed order (SetToSortSeq is not needed: choose any fixed order)
 RECURSIVE SeqOf(_)
 SeqOf(S) == IF S = {} THEN <<>> ELSE LET x == CHOOSE y \in S : TRUE IN <<x>> \o SeqOf(S \ {x})
-SelSets(T) == {SeqOf(S) : S \in UNION {kSubset(k, Menu(T)) : k \in 1..MaxAtoms}}
+\* the order of the atoms matters to the generator when two atoms reach the same response key (which definition of the
+\* key wins): such sets are explored in both orders
+AtomKeys(T, a) == {e.key : e \in UNION {CollectAtom(t, a, FALSE) : t \in Possible[T]}}
+OrderSensitive(T, S) == \E a, b \in S : a # b /\ AtomKeys(T, a) \cap AtomKeys(T, b) # {}
+Rev(s) == [i \in 1..Len(s) |-> s[Len(s) + 1 - i]]
+SelSets(T) == LET sets == UNION {kSubset(k, Menu(T)) : k \in 1..MaxAtoms} IN
+              {SeqOf(S) : S \in sets} \cup {Rev(SeqOf(S)) : S \in {X \in sets : OrderSensitive(T, X)}}
 RootType(r) == FieldsOf["Query"][r].named
 Ops == UNION {{[root |-> r, sels |-> s] : s \in {x \in SelSets(RootType(r)) : Mergeable(RootType(r), x)}} : r \in Roots}
 
